@@ -317,3 +317,71 @@ def best_of(chk, P, rule="R-CMP"):
             chk.inst(rule, f, "flag-arg#%d" % k, ok, "ordering flag argument is `<attr>->flags & HWLOC_MEMATTR_FLAG_HIGHER_FIRST` (%s)" % src(a), loc=f.loc(c))
             n += 1
     return n
+
+
+def filter_table(chk, P, rule="R-TAB"):
+    """hwloc__topology_set_type_filter over 20 types x 4 filters: Machine/PU/NUMANode only KEEP_ALL; Group never KEEP_ALL
+    (stored as KEEP_STRUCTURE? rejected); special types never KEEP_STRUCTURE; IMPORTANT == ALL for non-special types"""
+    u = P.unit("topology.c")
+    T = types_enum(u)
+    E = u.enum_consts
+    F = [("HWLOC_TYPE_FILTER_KEEP_ALL", E["HWLOC_TYPE_FILTER_KEEP_ALL"]), ("HWLOC_TYPE_FILTER_KEEP_NONE", E["HWLOC_TYPE_FILTER_KEEP_NONE"]),
+         ("HWLOC_TYPE_FILTER_KEEP_STRUCTURE", E["HWLOC_TYPE_FILTER_KEEP_STRUCTURE"]), ("HWLOC_TYPE_FILTER_KEEP_IMPORTANT", E["HWLOC_TYPE_FILTER_KEEP_IMPORTANT"])]
+    body = ""
+    for tn, tv in T:
+        for fn, fv in F:
+            body += ("int w_tf_%d_%d(void){ struct hwloc_topology t; __builtin_memset(&t, 0, sizeof t); t.type_filter[%d] = (enum hwloc_type_filter_e) 77; "
+                     "int e = hwloc__topology_set_type_filter(&t, (hwloc_obj_type_t)%d, (enum hwloc_type_filter_e)%d); return e < 0 ? -1 : (int) t.type_filter[%d]; }\n" % (tv, fv, tv, tv, fv, tv))
+    res = fold.run("topology_filters", u.path, P.db[u.path], body)
+    fold.need_folded(res, list(res), "type filter table")
+    f = P.need_func("hwloc__topology_set_type_filter", "topology.c")
+    ALL, NONE, STRUCT, IMP = [v for _, v in F]
+    unfilterable = (E["HWLOC_OBJ_MACHINE"], E["HWLOC_OBJ_PU"], E["HWLOC_OBJ_NUMANODE"])
+    special = (E["HWLOC_OBJ_BRIDGE"], E["HWLOC_OBJ_PCI_DEVICE"], E["HWLOC_OBJ_OS_DEVICE"], E["HWLOC_OBJ_MISC"])
+    bad = []
+    for tn, tv in T:
+        for fn, fv in F:
+            r = res["w_tf_%d_%d" % (tv, fv)]
+            if tv in unfilterable:
+                exp = ALL if fv == ALL else -1
+            elif tv in special:
+                exp = -1 if fv == STRUCT else fv
+            elif tv == E["HWLOC_OBJ_GROUP"]:
+                exp = -1 if fv in (ALL, IMP) else fv     # IMPORTANT would mean ALL, which Groups never are
+            else:
+                exp = ALL if fv == IMP else fv
+            if r != exp:
+                bad.append("%s <- %s: %s (expected %s)" % (tn, fn, r, exp))
+    chk.inst(rule, f, "filter-table", not bad, "; ".join(bad[:4]) or "%d (type, filter) cases accept/reject/store as specified" % (len(T) * 4))
+    return len(res)
+
+
+def depth_tables(chk, P, rule="R-TAB"):
+    """hwloc_get_depth_type(TYPE_DEPTH_T) == T for the special levels; default type_depth[T] == TYPE_DEPTH_T"""
+    u = P.unit("traversal.c") if "hwloc_get_depth_type" in P.unit("traversal.c")._fd else P.unit("topology.c")
+    E = u.enum_consts
+    pairs = [("HWLOC_OBJ_NUMANODE", "HWLOC_TYPE_DEPTH_NUMANODE"), ("HWLOC_OBJ_BRIDGE", "HWLOC_TYPE_DEPTH_BRIDGE"), ("HWLOC_OBJ_PCI_DEVICE", "HWLOC_TYPE_DEPTH_PCI_DEVICE"),
+             ("HWLOC_OBJ_OS_DEVICE", "HWLOC_TYPE_DEPTH_OS_DEVICE"), ("HWLOC_OBJ_MISC", "HWLOC_TYPE_DEPTH_MISC"), ("HWLOC_OBJ_MEMCACHE", "HWLOC_TYPE_DEPTH_MEMCACHE")]
+    body = ""
+    for t, d in pairs:
+        body += "int w_dt_%d(void){ struct hwloc_topology t; __builtin_memset(&t, 0, sizeof t); t.nb_levels = 3; return (int) hwloc_get_depth_type(&t, %d); }\n" % (E[t], E[d])
+    res = fold.run("depth_tables", u.path, P.db[u.path], body)
+    fold.need_folded(res, list(res), "depth tables")
+    f = P.need_func("hwloc_get_depth_type", os.path.basename(u.path))
+    bad = ["%s: depth %s -> %s" % (t, d, res["w_dt_%d" % E[t]]) for t, d in pairs if res["w_dt_%d" % E[t]] != E[t]]
+    chk.inst(rule, f, "special-depth-to-type", not bad, "; ".join(bad) or "the six special depths map back to their types")
+    # defaults in hwloc_topology_setup_defaults: type_depth[T] = TYPE_DEPTH_T
+    g = P.need_func("hwloc_topology_setup_defaults", "topology.c")
+    got = {}
+    for x in g.walk():
+        a = assigned(x)
+        if a and a[2] is not None:
+            t = strip(a[0])
+            if t["k"] == "Sub" and lv(t["c"][0]) == "topology->type_depth" and cval(t["c"][1]) is not None:
+                got[cval(t["c"][1])] = cval(a[2])
+    bad = ["type_depth[%s] = %s" % (t, got.get(E[t])) for t, d in pairs if got.get(E[t]) != E[d]]
+    chk.inst(rule, g, "default-type-depths", not bad, "; ".join(bad) or "default type_depth[] of the six special types are their TYPE_DEPTH constants")
+    return len(res) + len(pairs)
+
+
+import os
